@@ -5,7 +5,7 @@ into seeded/harmless/ (patches, notes, RESULTS.md)"""
 import glob, json, os, shutil
 V = os.path.dirname(os.path.dirname(os.path.abspath(__file__)))
 rows = []
-for S in ("A", "B"):
+for S in ("A", "B", "C", "D"):
     src = "/tmp/mut/ref%s.out" % S
     try:
         notes = json.load(open(src + "/notes.json"))
